@@ -20,6 +20,7 @@
    rr_count is a usize in the code; its overflow (2^64 records) is not modelled. *)
 From Coq Require Import NArith List Bool.
 From DV Require Import Base.Outcome C10.Gen.
+From DV Require C17.Gen C17.Model.
 Import ListNotations.
 Local Open Scope N_scope.
 
@@ -536,6 +537,18 @@ Definition d_existing (k : N) (st : dstate) : list N :=
   match s_get k (ds_work st) with Some v => snd v | None => [] end.
 
 
+(* InMemoryZoneDiff::new: `start_serial == end_serial || end_serial < start_serial`
+   on Serial values, i.e. RFC 1982 order (C17's model of Serial::partial_cmp):
+   0xFFFFFFFF -> 0 is an advance; serials 2^31 apart are incomparable and pass.
+   In the diff model (kind df) a SOA id is 2 * serial + variant with the real
+   32-bit serial. *)
+Definition serial_range_invalid (start_serial end_serial : N) : bool :=
+  (start_serial =? end_serial)
+  || match C17.Model.serial_partial_cmp end_serial start_serial with
+     | Ok (Some Lt) => true
+     | _ => false
+     end.
+
 (* WriteZone::commit(false): Some (removed, added) when a diff is returned *)
 Definition d_commit (st : dstate) : dstate * option (store * store) :=
   let old_soa := match s_get 0 (ds_pub st) with Some (t, x :: _) => Some (t, x) | _ => None end in
@@ -547,7 +560,7 @@ Definition d_commit (st : dstate) : dstate * option (store * store) :=
         match old_soa with
         | None => None
         | Some (to, so) =>
-            if (soa_serial so =? soa_serial sn) || (soa_serial sn <? soa_serial so) then None
+            if serial_range_invalid (soa_serial so) (soa_serial sn) then None
             else Some (s_set 0 (to, [so]) (ds_rem st), s_set 0 (tn, [sn]) (ds_add st))
         end
     end in
